@@ -3,7 +3,8 @@
 // are run on (a) the witness boundary lattice, (b) every single-field substitution of the
 // statement, the context and the proof, (c) honest-algorithm proofs for out-of-range
 // witnesses, (d) honest-algorithm proofs for statements with one relation broken,
-// (e) adaptive-statement forgeries.  Oracle: Verify is true exactly on the untouched
+// (e) adaptive-statement forgeries, (e') adaptive commitment-field forgeries (forge3.go) and
+// commitments re-chosen after the challenge (forge4.go).  Oracle: Verify is true exactly on the untouched
 // (statement, context, proof) triples and never panics.
 package main
 
@@ -715,7 +716,7 @@ func units(sys []*system) []unit {
 
 func main() {
 	res = vkit.Init("C10")
-	res.Rule = "one case = (proof system, kind, lattice point of witnesses/keys/nonces, seed index, mutator); completeness: an honest proof at that point; binding: one single-field substitution of the statement, the context or the proof (cases whose substitution leaves the encoded object unchanged are trivial and not counted); range: an honest-algorithm proof for a witness beyond the slack range; false-statement: an honest-algorithm proof for a statement with one relation broken; forgery: one adaptive-statement forgery"
+	res.Rule = "one case = (proof system, kind, lattice point of witnesses/keys/nonces, seed index, mutator); completeness: an honest proof at that point; binding: one single-field substitution of the statement, the context or the proof (cases whose substitution leaves the encoded object unchanged are trivial and not counted); range: an honest-algorithm proof for a witness beyond the slack range; false-statement: an honest-algorithm proof for a statement with one relation broken; forgery: one adaptive-statement forgery, one adaptive commitment-field forgery (false statement, honest prover algorithm, the commitment solved from its verification equation after the challenge) or one commitment re-chosen after the challenge, each in two contexts"
 	res.Assumptions = []string{
 		"randomness of provers is a SHA-256 counter-mode DRBG seeded per case; pool=nil",
 		"contexts are hash.New() + session bytes + party id, as round.Helper.HashForID builds them",
